@@ -29,7 +29,8 @@ JudgeReadLong(rec) ==
        << <<rec.len = SegLen(rec.in.doc), "harness expanded the document to another length (harness)">>,
           <<ParasAreLong(rec.next, rec.in.expect), "a document with a line longer than the read buffer is not read as its fields say (Next)">>,
           <<ParasAreLong(rec.all, rec.in.expect), "a document with a line longer than the read buffer is not read as its fields say (All)">>,
-          <<ParasAreLong(rec.slice, rec.in.expect), "a document with a line longer than the read buffer is not read as its fields say (Unmarshal into a slice)">> >>)
+          <<ParasAreLong(rec.slice, rec.in.expect), "a document with a line longer than the read buffer is not read as its fields say (Unmarshal into a slice)">>,
+          <<"sign" \in DOMAIN rec.in => rec.signer = rec.in.sign, "a validly signed document with a long line: the reported signer is not the signing key">> >>)
 
 JudgeWriteLong(rec) ==
     Checks("long-lines",
